@@ -359,6 +359,21 @@ def listToLocal (ops : StrOps α) (acs : List (Conv α)) (allow : Bool) (attrs :
     Res (Dict α (List (RVal α))) :=
   localGo ops acs allow attrs []
 
+/-- `acc.update(d)`: a key already present keeps its place and gets the new value. -/
+def Dict.update {β : Type} (acc d : Dict α β) : Dict α β := d.foldl (fun a p => Dict.set a p.1 p.2) acc
+
+/-- `AuthnResponse.get_identity` over the attribute statements in the order it reads them (per assertion:
+    the statement of every Advice assertion, then the assertion's own statements): every statement goes
+    through `read_attribute_statement` = `to_local` and the results are merged with `dict.update` — for a
+    local name that occurs in two statements the LATER statement's values replace the earlier ones. -/
+def getIdentity (ops : StrOps α) (acs : List (Conv α)) (allow : Bool) :
+    List (List (WireAttr α)) → Dict α (List (RVal α)) → Res (Dict α (List (RVal α)))
+  | [], acc => .ok acc
+  | st :: t, acc =>
+    match listToLocal ops acs allow st with
+    | .raised => .raised
+    | .ok d => getIdentity ops acs allow t (Dict.update acc d)
+
 /-- The converter used for sending: an explicit one (`acs[i].to_(ava)`), or the one `from_local`
     picks for a name format. -/
 inductive Sender (α : Type) where
